@@ -99,6 +99,25 @@ fn flags_b(opk: u8, paused: bool, closed: bool, unregistered: bool, native: bool
             // Liquidate and PayFunding stay available: same outcome as on the unpaused twin
             let t2 = twin.step(op);
             prove_d("C14/pause-does-not-block-liquidation-or-funding", Cond::from_bool(rec.tx.ok == t2.tx.ok), format!("{} paused-ok={} live-ok={} err={}", what, rec.tx.ok, t2.tx.ok, crate::sx::norm(&rec.tx.err)));
+            // ... and the engine is still paused afterwards (nobody sent SetPause{false}): every
+            // trader operation keeps failing, in this block and in the next
+            for later in [false, true] {
+                if later {
+                    r.w.next_block(15);
+                }
+                for k in 0..4u8 {
+                    let a2 = Uint128::new(2 * d);
+                    let f2 = if native { Some(a2) } else { None };
+                    let op2 = match k {
+                        0 => Op::Open { who: BOB, side: Side::Sell, margin: a2, lev: Uint128::new(2 * d), limit: Uint128::zero(), funds: if native { Some(native_open_funds(&r.w, a2, Uint128::new(2 * d))) } else { None } },
+                        1 => Op::Deposit { who: BOB, amount: a2, funds: f2 },
+                        2 => Op::Withdraw { who: BOB, amount: a2 },
+                        _ => Op::Close { who: BOB, limit: Uint128::zero() },
+                    };
+                    let t3 = r.step(op2.clone());
+                    prove_d("C14/paused-engine-rejects-trader-operations", Cond::from_bool(!t3.tx.ok), format!("{} after the paused {}{}", op2.name(), rec.op.name(), if later { " (next block)" } else { "" }));
+                }
+            }
             // (with the partial fraction configured the staged, deeply under-water liquidation runs
             // into the recorded C07 finding on both twins; only the comparison applies there)
             if !band {
